@@ -38,7 +38,8 @@ INVS = ['FIFOExactlyOnce', 'NoKeyMismatch', 'OnlyKexBetween', 'EpochsInStep']
 def write_cfg(name, consts, invariants=(), properties=(), view=True,
               spec='Spec'):
     d = dict(ThreshC=1, ThreshS=1, MaxApp=3, MaxKex=3,
-             FlushBeforeNewkeys='FALSE')
+             FlushBeforeNewkeys='FALSE', RepeatC='TRUE', RepeatS='TRUE',
+             RelatchStrict='FALSE')
     d.update(consts)
     lines = ['CONSTANTS'] + [f'  {k} = {v}' for k, v in d.items()]
     lines += [f'SPECIFICATION {spec}', 'CHECK_DEADLOCK FALSE']
@@ -183,7 +184,8 @@ def busy_session(ctx, T, kw, rekey_c, rekey_s, what, sig, by_time=False,
 
 
 TRACE_CONSTS = dict(ThreshC=0, ThreshS=0, MaxApp=100000, MaxKex=100000,
-                    FlushBeforeNewkeys='FALSE')
+                    FlushBeforeNewkeys='FALSE', RepeatC='TRUE', RepeatS='TRUE',
+                    RelatchStrict='FALSE')
 DIAG = ['DiagOut', 'DiagKc', 'DiagKs', 'DiagKexing', 'DiagStaged', 'DiagNdef',
         'DiagCnt', 'DiagErr']
 
@@ -305,6 +307,13 @@ def main(ctx):
        properties=['Completes'], spec='LiveSpec', view=False)
     mc(ctx, 'c11_sens', dict(FlushBeforeNewkeys='TRUE'), ['OnlyKexBetween'],
        expect='OnlyKexBetween')
+    # a peer that sends the kex-strict marker in its first KEXINIT only
+    for rc, rs in (('FALSE', 'TRUE'), ('TRUE', 'FALSE'), ('FALSE', 'FALSE')):
+        mc(ctx, f'c11_mk_{rc[0]}{rs[0]}', dict(RepeatC=rc, RepeatS=rs,
+                                               MaxApp=3, MaxKex=6), INVS)
+    mc(ctx, 'c11_sens_mk', dict(RepeatC='FALSE', RelatchStrict='TRUE',
+                                MaxKex=6), ['NoKeyMismatch'],
+       expect='NoKeyMismatch')
     mc(ctx, 'c11_w1', {}, ['NeverSimultaneous'], expect='NeverSimultaneous')
     mc(ctx, 'c11_w2', {}, ['NeverRekey'], expect='NeverRekey')
     # ---- 2. replay ----
@@ -388,6 +397,37 @@ def main(ctx):
                          {'module': 'RekeyLive', 'algs': str(kw),
                           'change': str(change), 'limits': [rc, rs]},
                          change=change)
+    # ---- 3c. a peer that sends the kex-strict marker in its first KEXINIT
+    # only (RepeatC / RepeatS = FALSE of the model): a raw peer re-keys with
+    # the endpoint under test; strict mode stays as the first exchange
+    # decided, so the sequence numbers keep being reset on both sides ----
+    pl = [bytes([(5 * i + j) % 251 for j in range(600)]) for i in range(10)]
+    for role in 'sc':
+        for rk in ((1500,) if quick else (800, 1500, 4000)):
+            r = T.run_asym_session(role, {}, pl, kw=dict(rekey_bytes=rk),
+                                   raw_kw=dict(strict_first_only=True))
+            nkex = sum(1 for t, *_ in r['rec'].app['c'] if t == 20)
+            ctx.count(('marker-first-only', role, rk), nontrivial=True)
+            bad = []
+            if r['outcome'] != 'ok':
+                bad.append(f'NoKeyMismatch: the session ended with '
+                           f'{r["outcome"]} after {nkex} key exchanges')
+            elif r['echoed'] != pl:
+                bad.append(f'FIFOExactlyOnce: payload lengths sent '
+                           f'{[len(p) for p in pl]} echoed '
+                           f'{[len(p) for p in r["echoed"]]}')
+            elif nkex < 3:
+                raise MachineryError(f'marker-first-only session did not '
+                                     f're-key ({nkex} KEXINIT)')
+            if bad:
+                ctx.violation({'module': 'RekeyLive', 'marker_first_only':
+                               True, 'role': role},
+                              f're-key every {rk} bytes against a peer that '
+                              f'omits the strict-kex marker when re-keying '
+                              f'(endpoint under test: {role}): '
+                              + '; '.join(bad),
+                              replay={'kind': 'marker-first-only',
+                                      'role': role, 'rekey_bytes': rk})
     ctx.assumptions += [
         'replay thresholds are 0 or 1 application packet (rekey_bytes=1); '
         'larger byte limits are covered by the busy-session sweep',
